@@ -155,8 +155,10 @@ CLAIMED = {
              "inverses of the Legendre coefficient matrices (kernel-decided over rationals); results are invariant under weight "
              "scaling (1, 2 and 3 angular terms) and under the values of zero-weight pixels, depend only on the multiset of a bin's pixel "
              "contributions (so pixel order, storage layout and the left-right mirror are immaterial), and the top-bottom mirror flips "
-             "exactly the odd terms (algebraic core of Distributions, any field). Tie: Results.cossin()/harmonics() vs the exact "
-             "tables. Oracle: same-function evaluation at random θ, I=4πr²P0, β=Pn/P0, windows, and the image-symmetry invariances.",
+             "exactly the odd terms (algebraic core of Distributions, any field); the windowed anisotropy of Ibeta(window) is the ratio "
+             "of centred moving averages masked by the averaged P0, so an anisotropy that does not depend on the radius survives any "
+             "window, array ends included (C15Window). Tie: Results.cossin()/harmonics() vs the exact tables, Results.Ibeta(window) "
+             "vs the executable window model. Oracle: same-function evaluation at random θ, I=4πr²P0, β=Pn/P0, windows, and the image-symmetry invariances.",
         note="Trusted: Lean kernel + standard axioms; Bonnet recurrence as the definition of P_n; mirror / origin-form / rmax-prefix "
              "invariances are measured on the implementation only.",
         technique="Lean 4 proof (ring identities, decide +kernel over exact rational tables) + differential correspondence",
